@@ -105,6 +105,9 @@ pub fn record_bot(opts: &Opts) -> i32 {
             return 2;
         }
     };
+    if mode == "match" {
+        return record_match(opts, &api, &roots);
+    }
     let mut engine = api.new_engine();
     let sel: Vec<&Value> = roots.as_array().unwrap().iter()
         .filter(|r| tags.is_empty() || r["tags"].as_array().unwrap().iter().any(|x| tags.split(',').any(|s| x == s)))
@@ -185,6 +188,17 @@ pub fn record_bot(opts: &Opts) -> i32 {
                                            "board": pos_json(&engine.board())})).unwrap();
                 events += 1;
             }
+            if mode == "long" && (ply % 100 == 99 || ply + 1 == plies) {
+                // a search on top of a long history: every position of the cycle has been counted
+                // ply/4 times by now (beyond the 255 a u8 counter can hold near the end)
+                op!("record-bot evaluate after {ply} plies of shuffling on {}", engine.board());
+                let t = CountingTimeout::at(200);
+                let (mv, sc) = engine.evaluate(&t);
+                calls += 1;
+                writeln!(out, "{}", json!({"ev": "evaluate", "k": 200, "mv": mv.map_or(-1i64, |m| code(m) as i64), "score": score_json(sc),
+                                           "board": pos_json(&engine.board())})).unwrap();
+                events += 1;
+            }
             if mode != "long" && rng.gen_range(0..30) == 0 {
                 // set the board again in the middle of a history: to the very position the plugin
                 // is in, or to the same position with other clocks (the history must be forgotten
@@ -221,5 +235,113 @@ pub fn record_bot(opts: &Opts) -> i32 {
     out.flush().unwrap();
     out_line("SUMMARY", &json!({"counts": {"events": events, "calls": calls, "flags_raised": flags}, "distinct": calls, "nontrivial": flags,
                                 "mismatches": 0, "samples": [], "extra": {}}));
+    0
+}
+
+/// The tournament game loop of chess-cli (bot_fight.rs), transcribed: two plugin instances, one per
+/// player; the instance whose colour is to move proposes, the move is submitted to both, the game
+/// ends on the threefold flag, on "no move proposed", or on what Board::state() says.  The proposals
+/// come from the engine under a counting limit, so the positions are those of real engine play
+/// (mates, promotions, endgames) rather than of random walks.  One `result` event per ply records
+/// the loop's verdict ("running" while the game goes on).
+fn record_match(opts: &Opts, api: &chess_api::ChessApiRef, roots: &Value) -> i32 {
+    use crate::engineplay::CountingTimeout;
+    use chess_bitboard::Color;
+    use chess_movegen::GameState;
+    let seed = opts.num("seed", 1);
+    let shard = opts.num("shard", 0);
+    let budget = opts.num("events", 3000);
+    let kmax = opts.num("kmax", 1500);
+    let tags = opts.str("tags", "std");
+    let mut out = std::io::BufWriter::new(std::fs::File::create(opts.str("out", "match.ndjson")).unwrap());
+    let mut rng = rng(seed, 1700 + shard);
+    let sel: Vec<&Value> = roots.as_array().unwrap().iter()
+        .filter(|r| tags.is_empty() || r["tags"].as_array().unwrap().iter().any(|x| tags.split(',').any(|s| x == s)))
+        .collect();
+    let (mut events, mut calls, mut flags, mut games, mut mates, mut draws) = (0u64, 0u64, 0u64, 0u64, 0u64, 0u64);
+    let mut g = 0u64;
+    while events < budget {
+        let r = sel[((g + shard * 5) as usize) % sel.len()];
+        g += 1;
+        let fen = r["fen"].as_str().unwrap();
+        let Ok(root) = fen.parse::<Board>() else { continue };
+        let mut a = api.new_engine();
+        let mut b = api.new_engine();
+        for (id, e) in [(0, &a), (1, &b)] {
+            writeln!(out, "{}", json!({"ev": "fresh", "id": id, "board": pos_json(&e.board())})).unwrap();
+        }
+        op!("record-match set_board {fen}");
+        a.set_board(root);
+        b.set_board(root);
+        for (id, e) in [(0, &a), (1, &b)] {
+            writeln!(out, "{}", json!({"ev": "set_board", "id": id, "arg": pos_json(&root), "board": pos_json(&e.board())})).unwrap();
+        }
+        events += 4;
+        games += 1;
+        // a few random opening plies so that games from the same root differ
+        let opening = rng.gen_range(0..6);
+        let mut ply = 0u32;
+        loop {
+            let turn = a.board().turn();
+            let id = if turn == Color::White { 0 } else { 1 };
+            let proposal = if ply < opening {
+                let legals = legal_codes(&a.board());
+                legals.choose(&mut rng).map(|&c| decode(c))
+            } else {
+                // mostly a limit that lets a few passes finish; now and then one that may expire at once
+                let k = if rng.gen_range(0..200) == 0 { rng.gen_range(0..40) } else { rng.gen_range(kmax / 10..kmax) };
+                op!("record-match evaluate id={id} k={k} on {}", a.board());
+                let t = CountingTimeout::at(k);
+                let (mv, sc) = if id == 0 { a.evaluate(&t) } else { b.evaluate(&t) };
+                calls += 1;
+                let bd = if id == 0 { a.board() } else { b.board() };
+                writeln!(out, "{}", json!({"ev": "evaluate", "id": id, "k": k, "mv": mv.map_or(-1i64, |m| code(m) as i64), "score": score_json(sc),
+                                           "board": pos_json(&bd)})).unwrap();
+                events += 1;
+                mv
+            };
+            ply += 1;
+            let Some(mv) = proposal else {
+                writeln!(out, "{}", json!({"ev": "result", "kind": "didnt_move", "winner": ""})).unwrap();
+                events += 1;
+                break;
+            };
+            op!("record-match make_move {mv} on {} (ply {ply})", a.board());
+            let ra = a.make_move(mv);
+            writeln!(out, "{}", json!({"ev": "make_move", "id": 0, "mv": code(mv), "valid": ra.is_valid, "flag": ra.is_three_fold_draw,
+                                       "board": pos_json(&a.board())})).unwrap();
+            let rb = b.make_move(mv);
+            writeln!(out, "{}", json!({"ev": "make_move", "id": 1, "mv": code(mv), "valid": rb.is_valid, "flag": rb.is_three_fold_draw,
+                                       "board": pos_json(&b.board())})).unwrap();
+            out.flush().unwrap();
+            calls += 2;
+            events += 3;
+            if ra.is_three_fold_draw {
+                flags += 1;
+            }
+            // the loop's verdict, in the loop's order
+            let (kind, winner) = if ra.is_three_fold_draw {
+                ("threefold", "")
+            } else {
+                match a.board().state() {
+                    GameState::CheckMate => ("checkmate", if turn == Color::White { "w" } else { "b" }),
+                    GameState::StaleMate => ("draw", ""),
+                    GameState::Check | GameState::Running => ("running", ""),
+                }
+            };
+            writeln!(out, "{}", json!({"ev": "result", "kind": kind, "winner": winner})).unwrap();
+            match kind {
+                "checkmate" => mates += 1,
+                "draw" | "threefold" => draws += 1,
+                _ => {}
+            }
+            if kind != "running" || ply > 400 || events >= budget {
+                break;
+            }
+        }
+    }
+    out.flush().unwrap();
+    out_line("SUMMARY", &json!({"counts": {"events": events, "calls": calls, "flags_raised": flags, "games": games, "mates": mates, "draws": draws},
+                                "distinct": calls, "nontrivial": flags + mates + draws, "mismatches": 0, "samples": [], "extra": {}}));
     0
 }
